@@ -375,7 +375,10 @@ def handle (j : Json) : E Json := do
   | "sreq" => answer j sreqOf jSReq jPSReq (suggestRequestToProto cfg) (suggestRequestFromProto cfg) suggestRequestNorm
   | "sdec" => answer j sdecOf jSDec jPSDec suggestDecisionToProto suggestDecisionFromProto suggestDecisionNorm
   | "esreq" => answer j esreqOf jESReq jPESReq (earlyStopRequestToProto cfg) (earlyStopRequestFromProto cfg) earlyStopRequestNorm
-  | "esdec" => answer j esdecOf jESDec jPESDec earlyStopDecisionsToProto (earlyStopDecisionsFromProto cfg) earlyStopDecisionsNorm
+  | "esdec" =>
+    -- "optPred": which variant of the early-stop decision converters the current tree has
+    let o := (j.getObjValAs? Bool "optPred").toOption.getD true
+    answer j esdecOf jESDec jPESDec (earlyStopDecisionsToProto o) (earlyStopDecisionsFromProto o cfg) earlyStopDecisionsNorm
   | "time" =>
     let ts ← listOf natOf (← fld j "ts")
     return Json.mkObj [("back", jList (fun t => jNat (fromTs (toTs t))) ts),
